@@ -34,7 +34,7 @@ def run(res):
     cov["evaluations"] = cov.get("evaluations", 0) + len(cases)
     cov["distinct_nontrivial"] = cov.get("distinct_nontrivial", 0) + len({(c["min"], c["max"], c["attempt"]) for c in cases if c["attempt"] >= 0})
     cov["rule"] = cov.get("rule", "") + " | backoff: attempts -2..300 (1200 thorough) x 7 (min,max) pairs, jitter in lock-step through rand.Seed, compared with the exact rational model"
-    cov["samples"] = cov.get("samples", [])[:2] + [cases[5], cases[70]]
+    cov["samples"] = cov.get("samples", [])[:2] + [cases[min(5, len(cases) - 1)], cases[min(70, len(cases) - 1)]]
     res.assumptions += ["float64 rounding and math.Pow (tolerance 1ns + 1e-9 relative); real sleeping is not observed, dial spacing is measured at the proxy with 20% slack"]
 
 
